@@ -192,7 +192,8 @@ func (g *ExecutionGraph) setupRetry() error {
 		var next []int
 		for _, u := range frontier {
 			if retry[u] || dict[u] == NodeStatusError ||
-				dict[u] == NodeStatusCancel {
+				dict[u] == NodeStatusCancel ||
+				dict[u] == NodeStatusRunning {
 				g.logger.Info("clear node state", "step", g.dict[u].data.Step.Name)
 				g.dict[u].clearState()
 				retry[u] = true
